@@ -1,8 +1,10 @@
 (* The IEEE-754 facts C15 rests on, for the SpecFloat operations the detector model uses
-   (binary32 for weights, binary64 for the mean). *)
-From Coq Require Import List ZArith Bool Arith Lia.
+   (binary32 for weights, binary64 for the mean).  The SpecFloat terms of the model are moved
+   to Flocq's binary_float through proofs/FloatBridge.v and from there to real numbers. *)
+From Coq Require Import List ZArith Bool Arith Lia Reals Lra.
 From Coq Require Import Floats.SpecFloat.
-From TR Require Import model.Ring model.Detector model.DetSpec proofs.DetC15.
+From Flocq Require Import Core IEEE754.BinarySingleNaN.
+From TR Require Import model.Ring model.Detector model.DetSpec proofs.DetC15 proofs.FloatBridge.
 Import ListNotations.
 Open Scope Z_scope.
 
@@ -14,20 +16,398 @@ Definition wt_ok (w : f32) : Prop :=
   | _ => False
   end.
 
+(* ------------------------------------------------------------------ *)
+(* binary32                                                             *)
+(* ------------------------------------------------------------------ *)
+#[local] Instance prec32 : Prec_gt_0 24 := eq_refl.
+#[local] Instance pe32 : Prec_lt_emax 24 128 := eq_refl.
+#[local] Instance prec64 : Prec_gt_0 53 := eq_refl.
+#[local] Instance pe64 : Prec_lt_emax 53 1024 := eq_refl.
+
+Local Notation b32 := (binary_float 24 128).
+Local Notation b64 := (binary_float 53 1024).
+Local Notation fexp32 := (SpecFloat.fexp 24 128).
+Local Notation fexp64 := (SpecFloat.fexp 53 1024).
+Local Notation rnd32 := (round radix2 fexp32 ZnearestE).
+Local Notation rnd64 := (round radix2 fexp64 ZnearestE).
+
+(* wt_ok in terms of Flocq floats: finite, sign bit clear *)
+Lemma wt_ok_b32 w : wt_ok w <->
+  exists b : b32, w = B2SF b /\ is_finite b = true /\ Bsign b = false.
+Proof.
+  split.
+  - destruct w as [[|]|s| |[|] m e]; simpl; try contradiction; intros H.
+    + now exists (B754_zero false).
+    + now exists (B754_finite false m e H).
+  - intros ([s|s| |s m e Hb] & -> & Hf & Hs); simpl in *; try discriminate; subst; auto.
+Qed.
+
+Lemma b32_nonneg (b : b32) : is_finite b = true -> Bsign b = false -> (0 <= B2R b)%R.
+Proof.
+  destruct b as [s|s| |s m e Hb]; simpl; try discriminate; intros _ Hs; [lra|].
+  subst s. apply F2R_ge_0. simpl. lia.
+Qed.
+
 Theorem wt_ok_zero : wt_ok f32_zero.
-Admitted.
+Proof. exact I. Qed.
+
+Definition tenth32 : b32 := @B754_finite 24 128 false 13421773 (-27) (eq_refl true).
+
+Lemma tenth32_val : B2R tenth32 = (13421773 / 134217728)%R.
+Proof. unfold tenth32, B2R, F2R; simpl. lra. Qed.
+
+(* x + 0.1 never overflows: below 2^22 the sum is below 2^23, above 2^22 the sum rounds
+   back to x because 0.1 is less than half an ulp *)
+Lemma rnd32_add_tenth_big (x : R) :
+  generic_format radix2 fexp32 x -> (bpow radix2 22 <= x)%R ->
+  rnd32 (x + B2R tenth32) = x.
+Proof.
+  intros Fx Hx. rewrite tenth32_val.
+  assert (H0 : (0 <= x)%R) by (pose proof (bpow_ge_0 radix2 22); lra).
+  assert (Hu : (/ 2 <= ulp radix2 fexp32 x)%R).
+  { apply Rle_trans with (ulp radix2 fexp32 (bpow radix2 22)).
+    - rewrite ulp_bpow. simpl. lra.
+    - apply ulp_le_pos; auto with typeclass_instances. apply bpow_ge_0. }
+  rewrite round_N_eq_DN; auto with typeclass_instances.
+  - apply round_DN_plus_eps_pos; auto with typeclass_instances. lra.
+  - rewrite round_DN_plus_eps_pos, round_UP_plus_eps_pos; auto with typeclass_instances; lra.
+Qed.
+
+Lemma rnd32_add_tenth_no_overflow (b : b32) :
+  is_finite b = true -> (0 <= B2R b)%R ->
+  (Rabs (rnd32 (B2R b + B2R tenth32)) < bpow radix2 128)%R.
+Proof.
+  intros Hf H0.
+  destruct (Rle_or_lt (bpow radix2 22) (B2R b)) as [Hbig|Hsmall].
+  - rewrite rnd32_add_tenth_big; auto.
+    + now apply abs_B2R_lt_emax.
+    + apply generic_format_B2R.
+  - assert (Hlo : (0 <= rnd32 (B2R b + B2R tenth32))%R).
+    { apply Rle_trans with (rnd32 0); [rewrite (rnd_0 24 128); lra|].
+      apply (rnd_le 24 128). rewrite tenth32_val. lra. }
+    assert (Hhi : (rnd32 (B2R b + B2R tenth32) <= bpow radix2 23)%R).
+    { rewrite <- (round_generic radix2 fexp32 ZnearestE (bpow radix2 23)).
+      - apply (rnd_le 24 128). rewrite tenth32_val.
+        change (bpow radix2 22) with 4194304%R in Hsmall.
+        change (bpow radix2 23) with 8388608%R. lra.
+      - apply generic_format_bpow. compute. discriminate. }
+    rewrite Rabs_pos_eq by exact Hlo.
+    apply Rle_lt_trans with (1 := Hhi). apply bpow_lt. lia.
+Qed.
 
 Theorem wt_ok_step : forall w, wt_ok w -> wt_ok (f32_add w f32_tenth).
-Admitted.
+Proof.
+  intros w Hw. apply wt_ok_b32 in Hw. destruct Hw as (b & -> & Hf & Hs).
+  pose proof (b32_nonneg b Hf Hs) as H0.
+  change f32_tenth with (B2SF tenth32). unfold f32_add.
+  destruct (SFadd_real 24 128 b tenth32 Hf eq_refl
+              (rnd32_add_tenth_no_overflow b Hf H0)) as (z & -> & Fz & _ & Sz).
+  apply wt_ok_b32. exists z. repeat split; auto.
+  rewrite Sz. rewrite Rcompare_Gt; auto. rewrite tenth32_val. lra.
+Qed.
+
+(* 16-bit integers convert exactly *)
+Lemma f32_of_Z_exact v : pix_ok v ->
+  exists b : b32, f32_of_Z v = B2SF b /\ is_finite b = true /\ B2R b = IZR v.
+Proof. intros Hv. apply (of_Z_exact 24 128). red in Hv. change (2 ^ 24) with 16777216. lia. Qed.
 
 Theorem f32_sub_not_below : forall nw bg w,
     pix_ok nw -> pix_ok bg -> wt_ok w ->
     SFltb (f32_sub (f32_of_Z nw) w) (f32_of_Z bg) = false -> bg <= nw.
-Admitted.
+Proof.
+  intros nw bg w Hnw Hbg Hw.
+  apply wt_ok_b32 in Hw. destruct Hw as (b & -> & Hf & Hs).
+  pose proof (b32_nonneg b Hf Hs) as H0.
+  destruct (f32_of_Z_exact nw Hnw) as (x & -> & Fx & Rx).
+  destruct (f32_of_Z_exact bg Hbg) as (y & -> & Fy & Ry).
+  (* -w <= x (-) w <= x *)
+  assert (Hhi : (rnd32 (B2R x - B2R b) <= B2R x)%R).
+  { rewrite <- (rnd_B2R 24 128 x) at 2. apply (rnd_le 24 128). lra. }
+  assert (Hlo : (- B2R b <= rnd32 (B2R x - B2R b))%R).
+  { rewrite <- B2R_Bopp, <- (rnd_B2R 24 128 (Bopp b)). apply (rnd_le 24 128). rewrite B2R_Bopp.
+    rewrite Rx. red in Hnw. assert (0 <= IZR nw)%R by (apply IZR_le; lia). lra. }
+  assert (Hov : (Rabs (rnd32 (B2R x - B2R b)) < bpow radix2 128)%R).
+  { pose proof (abs_B2R_lt_emax 24 128 x) as Hx. pose proof (abs_B2R_lt_emax 24 128 b) as Hb.
+    apply Rabs_lt. apply Rabs_lt_inv in Hx. apply Rabs_lt_inv in Hb. lra. }
+  unfold f32_sub.
+  destruct (SFsub_real 24 128 x b Fx Hf Hov) as (d & -> & Fd & Rd).
+  rewrite (SFltb_real 24 128 d y Fd Fy).
+  destruct (Rlt_bool_spec (B2R d) (B2R y)) as [|Hle]; [discriminate|intros _].
+  apply le_IZR. rewrite <- Rx, <- Ry. lra.
+Qed.
+
+(* ------------------------------------------------------------------ *)
+(* binary64: the running mean                                           *)
+(* ------------------------------------------------------------------ *)
+Local Open Scope R_scope.
+
+Lemma f64_of_Z_exact v : (0 <= v <= 1048576)%Z ->
+  exists b : b64, f64_of_Z v = B2SF b /\ is_finite b = true /\ B2R b = IZR v.
+Proof.
+  intros Hv. apply (of_Z_exact 53 1024). change (2 ^ 53)%Z with 9007199254740992%Z. lia.
+Qed.
+
+(* one rounding of a number in [0, 2^17] costs at most 2^-36 *)
+Definition eps64 : R := / 68719476736.
+
+Lemma rnd64_err x : 0 <= x <= 131072 -> Rabs (rnd64 x - x) <= eps64.
+Proof.
+  intros Hx.
+  apply Rle_trans with (1 := error_le_half_ulp radix2 fexp64 (fun n => negb (Z.even n)) x).
+  assert (Hu : ulp radix2 fexp64 x <= / 34359738368).
+  { apply Rle_trans with (ulp radix2 fexp64 (bpow radix2 17)).
+    - apply ulp_le_pos; auto with typeclass_instances; [lra|].
+      change (bpow radix2 17) with 131072. lra.
+    - rewrite ulp_bpow. change (fexp64 (17 + 1)) with (-35)%Z.
+      change (bpow radix2 (-35)) with (/ 34359738368). lra. }
+  unfold eps64. lra.
+Qed.
+
+Lemma rnd64_range x lo hi :
+  (Z.abs lo < 2 ^ 53)%Z -> (Z.abs hi < 2 ^ 53)%Z ->
+  IZR lo <= x <= IZR hi -> IZR lo <= rnd64 x <= IZR hi.
+Proof.
+  intros Hlo Hhi Hx. split.
+  - rewrite <- (rnd_IZR 53 1024 lo Hlo). apply (rnd_le 53 1024). lra.
+  - rewrite <- (rnd_IZR 53 1024 hi Hhi). apply (rnd_le 53 1024). lra.
+Qed.
+
+Lemma small_lt_emax64 x : 0 <= x <= 131072 -> Rabs x < bpow radix2 1024.
+Proof.
+  intros Hx. rewrite Rabs_pos_eq by lra.
+  apply Rle_lt_trans with (bpow radix2 17); [change (bpow radix2 17) with 131072; lra|].
+  apply bpow_lt. lia.
+Qed.
+
+Section Mean.
+  Variable N : Z.
+  Hypothesis HN : (1 <= N <= 1048576)%Z.
+  Variable nf : b64.
+  Hypothesis Rnf : B2R nf = IZR N.
+
+  Let step (a : f64) (v : Z) : f64 := f64_add a (f64_div (f64_of_Z v) (B2SF nf)).
+
+  Lemma N_pos : 1 <= IZR N.
+  Proof. apply IZR_le. lia. Qed.
+
+  (* one step of the fold: two roundings *)
+  Lemma mean_step (acc : b64) (v : Z) :
+    is_finite acc = true -> 0 <= B2R acc <= 65537 -> pix_ok v ->
+    exists r : b64, step (B2SF acc) v = B2SF r /\ is_finite r = true /\ 0 <= B2R r /\
+      Rabs (B2R r - (B2R acc + IZR v / IZR N)) <= 2 * eps64.
+  Proof.
+    intros Facc Racc Hv. pose proof N_pos as HNp.
+    assert (Hv' : 0 <= IZR v <= 65535) by (red in Hv; split; apply IZR_le; lia).
+    assert (Hq : 0 <= IZR v / IZR N <= 65535).
+    { split.
+      - apply Rmult_le_pos; [lra|]. apply Rlt_le, Rinv_0_lt_compat. lra.
+      - apply Rle_trans with (IZR v / 1); [|lra].
+        apply Rmult_le_compat_l; [lra|]. apply Rinv_le; lra. }
+    destruct (f64_of_Z_exact v) as (vf & Ev & Fv & Rv); [red in Hv; lia|].
+    (* the quotient *)
+    assert (Ht : 0 <= rnd64 (IZR v / IZR N) <= 65535).
+    { apply (rnd64_range _ 0 65535); [now compute | now compute | exact Hq]. }
+    destruct (SFdiv_real 53 1024 vf nf Fv) as (t & Et & Ft & Rt).
+    { rewrite Rnf. lra. }
+    { rewrite Rv, Rnf. apply small_lt_emax64. lra. }
+    rewrite Rv, Rnf in Rt.
+    (* the sum *)
+    assert (Hs : 0 <= B2R acc + B2R t <= 131072) by (rewrite Rt; lra).
+    assert (Hrs : 0 <= rnd64 (B2R acc + B2R t) <= 131072).
+    { apply (rnd64_range _ 0 131072); [now compute | now compute | exact Hs]. }
+    destruct (SFadd_real 53 1024 acc t Facc Ft) as (r & Er & Fr & Rr & _).
+    { apply small_lt_emax64. exact Hrs. }
+    exists r. split; [|split; [exact Fr|split]].
+    - unfold step, f64_add, f64_div. rewrite Ev, Et. exact Er.
+    - rewrite Rr. apply Hrs.
+    - pose proof (rnd64_err (B2R acc + B2R t) Hs) as E1.
+      pose proof (rnd64_err (IZR v / IZR N)) as E2.
+      rewrite <- Rr in E1. rewrite <- Rt in E2.
+      assert (E2' : Rabs (B2R t - IZR v / IZR N) <= eps64) by (apply E2; lra).
+      replace (B2R r - (B2R acc + IZR v / IZR N))
+        with ((B2R r - (B2R acc + B2R t)) + (B2R t - IZR v / IZR N)) by ring.
+      apply Rle_trans with (1 := Rabs_triang _ _). lra.
+  Qed.
+
+  Lemma eps64_small : 2 * IZR N * eps64 <= / 32768.
+  Proof.
+    assert (IZR N <= 1048576) by (apply IZR_le; lia). pose proof N_pos. unfold eps64. lra.
+  Qed.
+
+  (* the fold: after k values with exact sum S the accumulator is within 2 k eps of S / N *)
+  Lemma mean_fold_inv : forall (vs : list Z) (acc : b64) (k S : Z),
+      is_finite acc = true -> 0 <= B2R acc ->
+      (0 <= k)%Z -> (0 <= S <= 65535 * k)%Z -> (k + Z.of_nat (length vs) <= N)%Z ->
+      Rabs (B2R acc - IZR S / IZR N) <= 2 * IZR k * eps64 ->
+      Forall pix_ok vs ->
+      exists r : b64, fold_left step vs (B2SF acc) = B2SF r /\ is_finite r = true /\ 0 <= B2R r /\
+        Rabs (B2R r - IZR (fold_left Z.add vs S) / IZR N)
+          <= 2 * IZR (k + Z.of_nat (length vs)) * eps64.
+  Proof.
+    induction vs as [|v vs IH]; intros acc k S Facc Racc Hk HS Hlen Herr Hvs.
+    - exists acc. simpl. rewrite Z.add_0_r. auto.
+    - inversion Hvs as [|? ? Hv Hvs']; subst.
+      pose proof N_pos as HNp. pose proof eps64_small as Hes.
+      assert (Heps : 0 < eps64) by (unfold eps64; lra).
+      simpl length in Hlen. rewrite Nat2Z.inj_succ in Hlen.
+      assert (HkN : IZR k <= IZR N) by (apply IZR_le; lia).
+      assert (Hk0 : 0 <= IZR k) by (apply IZR_le; lia).
+      assert (HSq : IZR S / IZR N <= 65535).
+      { apply Rle_trans with (65535 * IZR N / IZR N); [|right; field; lra].
+        apply Rmult_le_compat_r; [apply Rlt_le, Rinv_0_lt_compat; lra|].
+        apply Rle_trans with (65535 * IZR k); [|apply Rmult_le_compat_l; lra].
+        rewrite <- mult_IZR. apply IZR_le. lia. }
+      assert (Hacc : 0 <= B2R acc <= 65537).
+      { split; [exact Racc|]. apply Rabs_le_inv in Herr.
+        assert (2 * IZR k * eps64 <= 2 * IZR N * eps64).
+        { apply Rmult_le_compat_r; [lra|]. lra. }
+        lra. }
+      destruct (mean_step acc v Facc Hacc Hv) as (r1 & E1 & F1 & R1 & Err1).
+      simpl fold_left. rewrite E1.
+      destruct (IH r1 (k + 1)%Z (S + v)%Z F1 R1) as (r & Er & Fr & Rr & Err); auto.
+      + lia.
+      + red in Hv. lia.
+      + lia.
+      + rewrite !plus_IZR.
+        replace (B2R r1 - (IZR S + IZR v) / IZR N)
+          with ((B2R r1 - (B2R acc + IZR v / IZR N)) + (B2R acc - IZR S / IZR N))
+          by (field; lra).
+        apply Rle_trans with (1 := Rabs_triang _ _). simpl IZR. lra.
+      + exists r. split; [exact Er|split; [exact Fr|split; [exact Rr|]]].
+        simpl length. rewrite Nat2Z.inj_succ.
+        replace (k + Z.succ (Z.of_nat (length vs)))%Z with (k + 1 + Z.of_nat (length vs))%Z by lia.
+        exact Err.
+  Qed.
+End Mean.
+
+(* truncation of a non-negative finite binary64 number is the floor of its value *)
+Lemma f64_trunc_floor (r : b64) :
+  is_finite r = true -> 0 <= B2R r -> f64_trunc (B2SF r) = Zfloor (B2R r).
+Proof.
+  destruct r as [s|s| |s m e Hb]; cbn [f64_trunc B2SF B2R is_finite]; try discriminate; intros _ Hr.
+  - symmetry. apply (Zfloor_IZR 0).
+  - destruct s.
+    + exfalso. assert (F2R (Float radix2 (Zneg m) e) < 0) by (apply F2R_lt_0; simpl; lia).
+      cbn [cond_Zopp Z.opp] in Hr. lra.
+    + cbn [cond_Zopp]. unfold F2R. cbn [Fnum Fexp]. destruct e as [|p|p].
+      * rewrite Z.shiftl_0_r. cbn [bpow]. rewrite Rmult_1_r. symmetry. apply Zfloor_IZR.
+      * rewrite Z.shiftl_mul_pow2 by lia. rewrite <- IZR_Zpower by lia.
+        rewrite <- mult_IZR, Zfloor_IZR. reflexivity.
+      * rewrite Z.shiftr_div_pow2 by lia. symmetry.
+        apply (Zfloor_div (Zpos m) (Z.pow_pos 2 p)).
+        change (Z.pow_pos 2 p) with (2 ^ Zpos p)%Z. lia.
+Qed.
+
+Lemma Zfloor_Rmax x a : Zfloor (Rmax x (IZR a)) = Z.max (Zfloor x) a.
+Proof.
+  destruct (Rle_or_lt x (IZR a)) as [H|H].
+  - rewrite Rmax_right by lra. rewrite Zfloor_IZR.
+    apply Zfloor_le in H. rewrite Zfloor_IZR in H. lia.
+  - rewrite Rmax_left by lra. assert (a <= Zfloor x)%Z by (apply Zfloor_lub; lra). lia.
+Qed.
+
+Lemma Zfloor_Rmin x a : Zfloor (Rmin x (IZR a)) = Z.min (Zfloor x) a.
+Proof.
+  destruct (Rle_or_lt x (IZR a)) as [H|H].
+  - rewrite Rmin_left by lra. apply Zfloor_le in H. rewrite Zfloor_IZR in H. lia.
+  - rewrite Rmin_right by lra. rewrite Zfloor_IZR.
+    assert (a <= Zfloor x)%Z by (apply Zfloor_lub; lra). lia.
+Qed.
+
+Lemma f64_max_real (a b : b64) : is_finite a = true -> is_finite b = true ->
+  exists r : b64, f64_max (B2SF a) (B2SF b) = B2SF r /\ is_finite r = true /\
+                  B2R r = Rmax (B2R a) (B2R b).
+Proof.
+  intros Fa Fb. unfold f64_max. rewrite (SFltb_real 53 1024 a b Fa Fb).
+  destruct (Rlt_bool_spec (B2R a) (B2R b)).
+  - exists b. rewrite Rmax_right by lra. auto.
+  - exists a. rewrite Rmax_left by lra. auto.
+Qed.
+
+Lemma f64_min_real (a b : b64) : is_finite a = true -> is_finite b = true ->
+  exists r : b64, f64_min (B2SF a) (B2SF b) = B2SF r /\ is_finite r = true /\
+                  B2R r = Rmin (B2R a) (B2R b).
+Proof.
+  intros Fa Fb. unfold f64_min. rewrite (SFltb_real 53 1024 b a Fb Fa).
+  destruct (Rlt_bool_spec (B2R b) (B2R a)).
+  - exists b. rewrite Rmin_right by lra. auto.
+  - exists a. rewrite Rmin_left by lra. auto.
+Qed.
+
+(* calculateThreshold on a non-negative finite average is the integer clamp of its floor *)
+Lemma calc_thresh_gen_floor (r : b64) tmin tmax :
+  is_finite r = true -> 0 <= B2R r -> pix_ok tmin -> pix_ok tmax ->
+  calc_thresh_gen tmin tmax (B2SF r) = clampZ tmin tmax (Zfloor (B2R r)).
+Proof.
+  intros Fr Rr Hmin Hmax. unfold calc_thresh_gen, clampZ. cbv zeta. unfold f64.
+  destruct (f64_of_Z_exact tmin) as (lo & Elo & Flo & Rlo); [red in Hmin; lia|].
+  destruct (f64_of_Z_exact tmax) as (hi & Ehi & Fhi & Rhi); [red in Hmax; lia|].
+  assert (Hlo0 : 0 <= IZR tmin) by (apply IZR_le; red in Hmin; lia).
+  assert (Hhi0 : 0 <= IZR tmax) by (apply IZR_le; red in Hmax; lia).
+  rewrite Elo, Ehi.
+  assert (H1 : exists r1 : b64,
+             (if (tmin =? 0)%Z then B2SF r else f64_max (B2SF r) (B2SF lo)) = B2SF r1 /\
+             is_finite r1 = true /\ 0 <= B2R r1 /\
+             Zfloor (B2R r1) = (if (tmin =? 0)%Z then Zfloor (B2R r)
+                                else Z.max (Zfloor (B2R r)) tmin)).
+  { destruct (tmin =? 0)%Z.
+    - exists r. auto.
+    - destruct (f64_max_real r lo Fr Flo) as (r1 & E1 & F1 & R1).
+      exists r1. rewrite R1, Rlo. repeat split; auto.
+      + apply Rle_trans with (1 := Rr). apply Rmax_l.
+      + apply Zfloor_Rmax. }
+  destruct H1 as (r1 & -> & F1 & R1 & <-).
+  destruct (tmax =? 0)%Z.
+  - now apply f64_trunc_floor.
+  - destruct (f64_min_real r1 hi F1 Fhi) as (r2 & -> & F2 & R2).
+    rewrite f64_trunc_floor; auto.
+    + rewrite R2, Rhi. apply Zfloor_Rmin.
+    + rewrite R2, Rhi. apply Rmin_glb; lra.
+Qed.
+
+(* Without an ordering premise on the bounds the threshold need not respect the minimum
+   (the upper bound is applied last and wins), so mean_threshold_bound as first stated --
+   without the premise [tmax = 0 \/ tmin <= tmax] -- is false. *)
+Example mean_threshold_needs_order :
+  let t := calc_thresh_gen 200 150 (mean_fold [100%Z]) in ~ (200 = 0 \/ 200 <= t)%Z.
+Proof. vm_compute. intros [H|H]; [discriminate|]. now apply H. Qed.
 
 Theorem mean_threshold_bound : forall vs tmin tmax,
     vs <> [] -> (length vs <= 1048576)%nat -> Forall pix_ok vs -> pix_ok tmin -> pix_ok tmax ->
+    (tmax = 0 \/ tmin <= tmax)%Z ->
     let t := calc_thresh_gen tmin tmax (mean_fold vs) in
     let m := clampZ tmin tmax (zsum vs / Z.of_nat (length vs)) in
-    Z.abs (t - m) <= 1 /\ (tmin = 0 \/ tmin <= t) /\ (tmax = 0 \/ t <= tmax).
-Admitted.
+    (Z.abs (t - m) <= 1 /\ (tmin = 0 \/ tmin <= t) /\ (tmax = 0 \/ t <= tmax))%Z.
+Proof.
+  intros vs tmin tmax Hne Hlen Hvs Hmin Hmax Hord.
+  set (N := Z.of_nat (length vs)).
+  assert (HN : (1 <= N <= 1048576)%Z).
+  { assert (Hbig : Z.of_nat 1048576 = 1048576%Z) by (vm_compute; reflexivity).
+    apply Nat2Z.inj_le in Hlen. rewrite Hbig in Hlen. subst N.
+    destruct vs; [congruence|]. simpl length in *. lia. }
+  destruct (f64_of_Z_exact N) as (nf & En & Fn & Rn); [lia|].
+  assert (Herr0 : Rabs (B2R (B754_zero false : b64) - IZR 0 / IZR N) <= 2 * IZR 0 * eps64).
+  { simpl B2R. replace (0 - 0 / IZR N) with 0 by (unfold Rdiv; ring). rewrite Rabs_R0. lra. }
+  destruct (mean_fold_inv N HN nf Rn vs (B754_zero false) 0 0 eq_refl (Rle_refl 0))
+    as (r & Er & Fr & Rr & Err); auto; try lia.
+  assert (Em : mean_fold vs = B2SF r).
+  { unfold mean_fold. fold N. rewrite En. exact Er. }
+  fold (zsum vs) in Err. fold N in Err. rewrite Z.add_0_l in Err.
+  assert (Hes : 2 * IZR N * eps64 <= / 32768).
+  { assert (IZR N <= 1048576) by (apply IZR_le; lia).
+    assert (0 < IZR N) by (apply IZR_lt; lia). unfold eps64. lra. }
+  intros t m. subst t m. rewrite Em, calc_thresh_gen_floor by auto. fold N.
+  (* the floor of the float mean is within 1 of the integer quotient *)
+  set (x := B2R r) in *. set (y := IZR (zsum vs) / IZR N) in *.
+  assert (Hq : Zfloor y = (zsum vs / N)%Z) by (apply Zfloor_div; lia).
+  pose proof (Zfloor_lb y) as Hy1. pose proof (Zfloor_ub y) as Hy2.
+  pose proof (Zfloor_lb x) as Hx1. pose proof (Zfloor_ub x) as Hx2.
+  rewrite Hq in Hy1, Hy2. set (q := (zsum vs / N)%Z) in *. set (f := Zfloor x) in *.
+  apply Rabs_le_inv in Err.
+  assert (Hf1 : (f < q + 2)%Z) by (apply lt_IZR; rewrite plus_IZR; lra).
+  assert (Hf2 : (q - 2 < f)%Z) by (apply lt_IZR; rewrite minus_IZR; lra).
+  unfold clampZ. red in Hmin, Hmax.
+  clearbody f q. clear -Hf1 Hf2 Hmin Hmax Hord.
+  destruct (Z.eqb_spec tmin 0) as [E1|E1], (Z.eqb_spec tmax 0) as [E2|E2];
+    repeat split; try (apply Z.abs_le); lia.
+Qed.
